@@ -166,7 +166,7 @@ def main():
         dim = M.dim_of(et)
         mesh = M.mesh_2d(et, 1.0, 1.0, 1.0) if dim == 2 else M.mesh_3d(et, 1.0, 1.0, 1.0, 1.0, 1)
         g = mesh.groupElem
-        law = H_.NeoHookean(dim, 2.0) if dim == 2 else H_.MooneyRivlin(dim, 1.5, 0.75, 4.0)
+        law = H_.NeoHookean(dim, 2.0, thickness=[0.375, 2.5][len(et) % 2]) if dim == 2 else H_.MooneyRivlin(dim, 1.5, 0.75, 4.0)   # a 2D law carries a thickness: every operator scales with it
         u0 = np.array([rng.gauss(0, 0.03) for _ in range(mesh.Nn * dim)])
         v0 = np.array([rng.gauss(0, 0.1) for _ in range(mesh.Nn * dim)])
         asm = np.asarray(g.Get_assembly_e(dim))
